@@ -69,6 +69,14 @@ def check_case(case, ctx):
     out = os.path.join(root, "out") if case["abs_out"] else "out"
     v = []
     ctx.label("how:" + case.get("how", "api"))
+    import zlib as _z2
+    if _z2.crc32(repr(case["vars"]).encode()) % 3 == 0:
+        # second use: the output directory already holds an older, larger result (every field, every level)
+        ctx.label("output-directory-holds-an-older-result")
+        try:
+            qcall(lambda: Colander(src, output=out, variables=["all"]).strain())
+        except Exception as e:
+            return [f"colander raised {type(e).__name__}: {e} (all fields, all levels)"]
     try:
         if case.get("how") == "cli":
             import amr_kitchen.colander.cli as cli
